@@ -67,6 +67,15 @@ def run(ctx):
         for pool in (by_len[8], by_len[3], by_len[8] + by_len[7]):
             bits = "".join(format(rng.choice(pool), "011b") for _ in range(L))[:LENS[L] * 8]
             add(L, int(bits, 2).to_bytes(LENS[L], "big"))
+    # every one of the 2048 list words is printed at least once: entropy whose 11-bit groups run through all indices
+    order = list(range(2048))
+    rng.shuffle(order)
+    for k in range(0, 2048, 11):
+        grp = order[k:k + 11]
+        grp += [rng.randrange(2048) for _ in range(11 - len(grp))]
+        bits = "".join(format(i_, "011b") for i_ in grp) + format(rng.randrange(128), "07b")
+        add(12, int(bits, 2).to_bytes(16, "big"))
+    ctx.exhaustive["every word index 0..2047 occurs in a generated phrase"] = True
     add(12, rbytes(rng, 16), args=["new"])  # default length
     add(12, rbytes(rng, 16), args=["new", "--length", "12", "--language", "english"])
     add(12, rbytes(rng, 16), args=["new", "-n", "12", "-l", "ENGLISH"])
@@ -244,6 +253,33 @@ def run(ctx):
                           dict(op="hdwallet " + " ".join(rr[0]["args"]), requests=["00" * 16, "00" * 16, e_match.hex(), "fail (EIO)"], runs=len(out)),
                           "the failure reported at request 3 is the first message of the search in (nearly) every run: error exit", 
                           "all %d runs printed the phrase and exited 0" % len(out))
+    # a prefix that the phrase of all-zero / all-ones / 0x80.. entropy happens to carry: the search still starts from OS entropy
+    # (scripted: random buffers, none of which is that constant), so the printed phrase is one of the scripted buffers, has the
+    # requested length, and the request log is not empty
+    cruns, cmeta = [], []
+    for L in LENS:
+        for const in (b"\x00" * LENS[L], b"\xff" * LENS[L], bytes([0x80] + [0] * (LENS[L] - 1))):
+            ac = c18.addr_of_phrase(c18.phrase_of(const))
+            for nd in (1, 2):
+                script = os.path.join(tmp, "const_%d_%s_%d" % (L, const[:1].hex(), nd))
+                log = script + ".log"
+                bufs = [rbytes(rng, LENS[L]) for _ in range(400)]
+                open(script, "w").write("".join(b_.hex() + "\n" for b_ in bufs))
+                cruns.append(dict(args=["new", "-n", str(L), "--vanity-prefix", "0x" + ac.hex()[:nd], "-j", str(rng.choice([0, 1]))], timeout=120,
+                                  env=dict(LD_PRELOAD=shim, HDW_SHIM_SCRIPT=script, HDW_SHIM_LOG=log, HDW_SHIM_DEFAULT="fail")))
+                cmeta.append((L, const, bufs, log, ac.hex()[:nd]))
+    for rn, (L, const, bufs, log, pfx), r in zip(cruns, cmeta, ctx.cli(cruns, timeout=120)):
+        ctx.count("vanity-prefix-of-a-constant-phrase")
+        ctx.distinct(("constprefix", L, const[:1], pfx))
+        case = dict(op="hdwallet " + " ".join(rn["args"]), note="prefix of the address of the phrase with entropy %s.." % const[:2].hex())
+        reqs = [l for l in (open(log).read().split("\n") if os.path.exists(log) else []) if l]
+        if r.cls == "error" and len(reqs) > 390:
+            continue  # none of the 400 scripted candidates matched (possible for 2 digits): nothing to judge
+        allowed = {" ".join(wl[j] for j in pyref.bip39_indices(b_)) for b_ in bufs[:max(len(reqs), 1)]}
+        got = r.stdout.decode().strip()
+        if r.cls != "ok" or got not in allowed or not reqs:
+            ctx.violation("vanity-phrase-comes-from-os-entropy", case, "the phrase of one of the %d buffers returned so far (%d requests logged)" % (len(reqs), len(reqs)),
+                          str(r)[:300])
     # phrases produced by a vanity search (every candidate after the first is a NEW mnemonic) parse back as well
     vruns = [dict(args=["new", "-n", str(n), "--vanity-prefix", p, "-j", str(j)], timeout=120) for n in (12, 15, 18, 21, 24) for p, j in (("0x1", 0), ("0xa", 2), ("0xF", 1))]
     vres = ctx.cli(vruns, timeout=120)
